@@ -120,6 +120,20 @@ fn alphabet() -> Vec<Rr> {
         r("n.z.y.", t::NULL, c::IN, 1, b"\x01\x02"),
         r("n.z.y.", 65280, c::IN, 1, b""),
         r("n.z.y.", 65280, c::IN, 1, b"\x00"),
+        // one node with many RRset types (a busy apex has a dozen): typed
+        // lookups must keep agreeing with iteration however long the list is
+        r("v.z.y.", t::A, c::IN, 1, a1),
+        r("v.z.y.", t::TXT, c::IN, 1, x1),
+        r("v.z.y.", t::MX, c::IN, 1, &mx(1, "t.z.y.")),
+        r("v.z.y.", t::HINFO, c::IN, 1, b"\x01c\x01o"),
+        r("v.z.y.", t::NULL, c::IN, 1, b"\x07"),
+        r("v.z.y.", 48, c::IN, 1, b"\x01"),
+        r("v.z.y.", 99, c::IN, 1, b"\x02"),
+        r("v.z.y.", 257, c::IN, 1, b"\x03"),
+        r("v.z.y.", 65280, c::IN, 1, b"\x04"),
+        r("v.z.y.", 65281, c::IN, 1, b"\x05"),
+        r("v.z.y.", 65534, c::IN, 1, b"\x06"),
+        r("v.z.y.", t::SRV, c::IN, 1, &srv(1, 1, 1, "t.z.y.")),
     ]
 }
 
@@ -145,11 +159,12 @@ fn sub_alphabets() -> Vec<(&'static str, Vec<usize>)> {
         ("RRsets: SOA/NS/A/TXT at the apex and one child, equal-by-case RDATA, TTL conflicts in either order", vec![0, 1, 2, 3, 4, 5, 6, 7, 8, 9, 10, 11, 12, 13, 14, 15, 31]),
         ("mixed: apex SOA/NS plus depth, TTL conflicts below empty non-terminals", vec![0, 2, 3, 4, 6, 8, 10, 16, 17, 18, 19, 20, 21, 24, 33, 36]),
         ("less common types: SRV / MX / MINFO / HINFO records that differ in one fixed field or in name case only", vec![40, 41, 42, 43, 44, 45, 46, 47, 48, 49, 50, 51]),
+        ("one node with twelve RRset types, added in every order", vec![57, 58, 59, 60, 61, 62, 63, 64, 65, 66, 67, 68]),
         ("empty RDATA next to non-empty RDATA (NULL and an unknown type), every order, with repeats", vec![52, 53, 54, 55, 56, 8]),
     ]
 }
 
-const LOOKUP_TYPES: [u16; 11] = [t::A, t::NS, t::SOA, t::TXT, t::CNAME, t::SRV, t::MX, t::MINFO, t::HINFO, t::NULL, 65280];
+const LOOKUP_TYPES: [u16; 14] = [t::A, t::NS, t::SOA, t::TXT, t::CNAME, t::SRV, t::MX, t::MINFO, t::HINFO, t::NULL, 65280, 48, 257, 65534];
 
 /// Names looked up around every history, besides the model's nodes.
 fn probe_names(alpha: &[Rr]) -> Vec<WName> {
